@@ -1,0 +1,9 @@
+//go:build !verif
+// +build !verif
+
+// Package vhook carries the instrumentation points of the verification framework in /verif.
+// Without the build tag "verif" every point is an empty function that the compiler removes.
+package vhook
+
+// Emit does nothing unless the library is built with -tags verif.
+func Emit(point string, a uintptr) {}
